@@ -14,7 +14,7 @@ dst = os.path.join(V, "seeded", sid)
 if MODE == "checks":
     meta = json.load(open(os.path.join(dst, "meta.json")))
     results = {}
-    out = sh("SEEDS='0 1' %s/tools/try_patch.sh %s/patch.diff %s" % (V, dst, " ".join(checks)), timeout=14400).stdout
+    out = sh("SEEDS='%s' %s/tools/try_patch.sh %s/patch.diff %s" % (os.environ.get("SEEDS", "0"), V, dst, " ".join(checks)), timeout=14400).stdout
     print(out)
     for line in out.splitlines():
         if line.startswith("seed="):
@@ -57,7 +57,7 @@ for f in ("patch.diff", "demo.py", "NOTE.md"):
         shutil.copy(os.path.join(src, f), os.path.join(dst, f))
 results = {}
 if checks and MODE == "all":
-    out = sh("SEEDS='0 1' %s/tools/try_patch.sh %s/patch.diff %s" % (V, dst, " ".join(checks)), timeout=7200).stdout
+    out = sh("SEEDS='%s' %s/tools/try_patch.sh %s/patch.diff %s" % (os.environ.get("SEEDS", "0"), V, dst, " ".join(checks)), timeout=7200).stdout
     print(out)
     for line in out.splitlines():
         if line.startswith("seed="):
